@@ -88,6 +88,10 @@ if len(sys.argv) > 2 and sys.argv[2] == "in":
 rc = int(sys.argv[3]) if len(sys.argv) > 3 else 0
 sys.stdout.write(o); sys.stdout.flush()
 sys.stderr.write("<E%s>\\n" % tag); sys.stderr.flush()
+import os
+if os.environ.get("VERIF_TAGGER_LATE"):
+    # a second stdout write after the stderr one: both streams into one file must interleave, not overwrite
+    sys.stdout.write("<Q%s>\\n" % tag); sys.stdout.flush()
 sys.exit(rc)
 """
 
